@@ -140,14 +140,14 @@ theorem commit_out_oid {env : Env} {objs : List Obj} {p : Pending} {out : List (
   rw [ho]
   cases hc' : curOid o sf hr.1 with
   | none => exact absurd hc' hne
-  | some oid => exact ⟨oid, rfl⟩
+  | some oid => exact ⟨oid, by simp [hc']⟩
 
 /-! ### the round trip of one record and of a whole session -/
 
 theorem roundtrip_state {env : Env} {objs : List Obj} {sf : WState} {o : Obj} {r : Record}
     {ls : LState} {t : Tree LLeaf} (hr : RecFor env objs sf o r)
     (hl : Tree.Rel (LeafFor env.db ls) r.state t) : Tree.Rel (SameTarget env objs sf ls) o.state t :=
-  Rel.comp (fun _ _ _ => sameTarget_of) hr.2.2 hl
+  Rel.comp (R := TokFor env objs sf) (S := LeafFor env.db ls) (T := SameTarget env objs sf ls) (fun _ _ _ h1 h2 => sameTarget_of h1 h2) hr.2.2 hl
 
 /-- Load anything, in any order, from a database that holds the records of a commit: every activated
     object whose oid is that of a stored object has that object's state, each strong reference
